@@ -167,6 +167,40 @@ def gen_db(rng, uni):
     return text
 
 
+def gen_extra_db(rng, uni, db):
+    """a second database, given as `extra_db=` (the path the IPython integration always takes); biased to know a
+    DIFFERENT import for a name the main database knows"""
+    ents, _ = db_entries(db)
+    lines = []
+    for _ in range(rng.choice([1, 1, 2, 3])):
+        m = rng.choice(uni)
+        p = m["path"]
+        if ents and rng.random() < 0.6:
+            full, ias, _ = rng.choice(ents)
+            if "." in ias:
+                lines.append("import " + rng.choice([ias, ias.rsplit(".", 1)[0], p]))
+            elif rng.random() < 0.5:
+                lines.append("from %s import %s" % (p, ias))
+            else:
+                lines.append("from %s import %s as %s" % (p, rng.choice(m["members"] + MEMS[:1]), ias) if "." in p or rng.random() < 0.5
+                             else "import %s as %s" % (p, ias))
+        else:
+            r = rng.random()
+            if r < 0.4:
+                lines.append("import " + p)
+            elif r < 0.8:
+                lines.append("from %s import %s" % (p, rng.choice(m["members"] + MEMS)))
+            else:
+                lines.append("from %s import %s as %s" % (p, rng.choice(m["members"] + MEMS[:1]), rng.choice(ALIASES)))
+    lines = list(dict.fromkeys(lines))
+    return "\n".join(lines) + "\n"
+
+
+def full_db_text(case):
+    """the text of everything the call knows: `db` and `extra_db` together (their union)"""
+    return case["db"] + ("\n" + case["extra_db"] if case.get("extra_db") else "")
+
+
 def _import_as(line):
     """bound (import_as) name of one database line, pyflyby's convention (plain dotted import: the dotted name)"""
     node = ast.parse(line).body[0]
@@ -250,12 +284,35 @@ SNIPPETS = [
     "if True:\n    {a}\n", "{a}[0]", "len({a})",
 ]
 BAD_SNIPPETS = ["{a} +", "({a}", "def", "{a}.(x)", "{a} {b}", "x = = {a}", "   {a}\n{b}"]
+# text that CPython rejects only because of its layout ("unexpected indent"): it would parse after a
+# normalisation (dedent / strip) that auto_import must NOT apply — code that does not parse adds nothing
+INDENTED_SNIPPETS = ["    {a}", "    {a}({b})", "\t{a}", "  x = {a}\n  print(x)", "\n\n    {a}.attr", "    {a}; {b}",
+                     "\t{a}\n\t{b}", " {a}", "    print({a} + {b})\n", "  \n    {a}\n    {b}\n", "    [{a} for i in range(2)]"]
+# names read in every position of a signature / class header (evaluated when the statement runs)
+SIG_SNIPPETS = [
+    "def fn(*parts: {a}): pass", "def fn(**kw: {a}): pass", "def fn(p: {a}, /): pass", "def fn(q: {a}): pass",
+    "def fn(*, k: {a}): pass", "def fn() -> {a}: pass", "def fn(q={a}): pass", "def fn(*, k={a}): pass",
+    "def fn(p={a}, /): pass",
+    "def fn(p: {a}, /, q: {b} = {c}, *parts: {a}, k: {b} = {c}, **kw: {a}) -> {b}:\n    pass",
+    "def fn(p, /, q, *parts: {a}, k=1, **kw: {b}): return p",
+    "async def fn(q: {a} = {b}, *r: {c}): pass",
+    "lambda q={a}, *r, k={b}, **kw: q", "lambda p={a}, /, *r: p", "(lambda *, k={a}: k)()",
+    "@{a}\ndef fn(): pass", "@{a}({b})\ndef fn(): pass", "@{a}\nclass K: pass",
+    "class K({a}): pass", "class K({a}, {b}): pass", "class K(metaclass={a}): pass", "class K(object, kw={a}): pass",
+    "class K:\n    def m(self, *parts: {a}, **kw: {b}) -> {c}: pass",
+    "def outer():\n    def inner(*parts: {a}): pass\n    return inner\nouter()",
+]
 
 
 def gen_code(rng, pool):
     a, b, c = (rng.choice(pool) for _ in range(3))
-    if rng.random() < 0.08:
+    r = rng.random()
+    if r < 0.07:
         t = rng.choice(BAD_SNIPPETS)
+    elif r < 0.14:
+        t = rng.choice(INDENTED_SNIPPETS)
+    elif r < 0.30:
+        t = rng.choice(SIG_SNIPPETS)
     else:
         t = rng.choice(SNIPPETS)
     return t.format(a=a, b=b, c=c, ha=a.split(".")[0])
@@ -315,7 +372,10 @@ def gen_case(rng):
         for c in calls:
             if c["kind"] in ("code", "symbol"):
                 c["stack"] = rng.sample(range(nns), rng.randint(1, nns))
-    return dict(universe=uni, db=db, preload=preload, nss=nss, calls=calls)
+    case = dict(universe=uni, db=db, preload=preload, nss=nss, calls=calls)
+    if rng.random() < 0.35:
+        case["extra_db"] = gen_extra_db(rng, uni, db)
+    return case
 
 
 # ----------------------------------------------------------------------------
@@ -644,7 +704,9 @@ def run_history(case, scratch_base):
         ModuleHandle._cls_cache.clear()
         try:
             db = ImportDB(case["db"])
-            table = db.by_fullname_or_import_as
+            extra = ImportDB(case["extra_db"]) if case.get("extra_db") else None
+            # the table the calls work with: auto_import combines `db | extra_db` itself
+            table = (db | extra if extra is not None else db).by_fullname_or_import_as
             obs["dbmap"] = sorted([k, [[i.fullname, i.import_as] for i in v]] for k, v in table.items())
         except Exception as e:
             obs["db_err"] = type(e).__name__
@@ -701,7 +763,7 @@ def run_history(case, scratch_base):
                     co["missing"] = "exc:" + type(e).__name__
                 with rec:
                     try:
-                        res = A.auto_import(code, stk, db=db, autoimported=autoimported)
+                        res = A.auto_import(code, stk, db=db, autoimported=autoimported, extra_db=extra)
                     except Exception as e:
                         res = "exc:" + type(e).__name__
             elif call["kind"] == "symbol":
@@ -712,7 +774,8 @@ def run_history(case, scratch_base):
                     co["missing"] = "exc:" + type(e).__name__
                 with rec:
                     try:
-                        res = A.auto_import_symbol(call["name"], stk, db=db, autoimported=autoimported)
+                        res = A.auto_import_symbol(call["name"], stk, db=(db | extra if extra is not None else db),
+                                                   autoimported=autoimported)
                     except Exception as e:
                         res = "exc:" + type(e).__name__
             else:
@@ -749,7 +812,7 @@ def run_history(case, scratch_base):
                     os.dup2(dn, 1)
                     os.dup2(dn, 2)
                     try:
-                        exec(compile(code, "<vq>", "exec"), merged)
+                        exec(compile(code, "<vq>", "exec", dont_inherit=True), merged)
                         return dict(run="ok")
                     except NameError as e:
                         return dict(run="NameError:" + str(getattr(e, "name", None)))
@@ -780,7 +843,7 @@ def run_history(case, scratch_base):
 
 def _ctx(case, ci, co):
     call = case["calls"][ci]
-    return dict(call_index=ci, call=call, db=case["db"], result=co.get("result"))
+    return dict(call_index=ci, call=call, db=case["db"], extra_db=case.get("extra_db"), result=co.get("result"))
 
 
 def _added(before, after):
@@ -907,7 +970,7 @@ def oracle_c07(case, obs):
     fails = []
     if "db_err" in obs:
         return fails
-    tab = db_lookup_table(case["db"])
+    tab = db_lookup_table(full_db_text(case))
     for ci, co in enumerate(obs["calls"]):
         call = case["calls"][ci]
         if call["kind"] not in ("code", "symbol"):
@@ -1128,10 +1191,10 @@ class AutoImpBase(Prop):
         evs = [e for co in obs.get("calls", []) for e in co.get("events", []) if e[0] == "stmt"]
         if not evs:
             return None
-        return json.dumps([case["db"], case["nss"], case["calls"], [m["path"] for m in case["universe"]]], sort_keys=True)
+        return json.dumps([case["db"], case.get("extra_db"), case["nss"], case["calls"], [m["path"] for m in case["universe"]]], sort_keys=True)
 
     def sample_repr(self, case, obs):
-        return dict(db=case["db"], nss=case["nss"], calls=case["calls"],
+        return dict(db=case["db"], extra_db=case.get("extra_db"), nss=case["nss"], calls=case["calls"],
                     results=[c.get("result") for c in obs.get("calls", [])],
                     events=[c.get("events") for c in obs.get("calls", [])][:3])
 
@@ -1143,6 +1206,8 @@ class AutoImpBase(Prop):
         inc("namespaces_%d" % len(case["nss"]))
         if "__forget_imports__" in case["db"]:
             inc("db_with_forget")
+        if case.get("extra_db"):
+            inc("cases_with_extra_db")
         for call, co in zip(case["calls"], obs.get("calls", [])):
             inc("call_" + call["kind"])
             if call["kind"] == "newcell":
